@@ -78,7 +78,7 @@ theorem cur_abs {st : RecSt} (hinv : Rec.Inv fields st) (i : Int) :
       | none => simp [Comp.get?]
       | some c => simp
 
-theorem alloc_abs {st : RecSt} (hinv : Rec.Inv fields st) (hN : fields.length ≠ 0) (i : Int) (k : Nat)
+theorem alloc_abs {st : RecSt} (hinv : Rec.Inv fields st) (i : Int) (k : Nat)
     (hk : pyIdx fields.length i = some k) :
     (if (Rec.slot (st.comps.getD []) i).isSome then st.comps.getD [] else List.replicate fields.length Comp.hole).map Comp.get?
       = alloc fields (Rec.absD st) := by
@@ -106,5 +106,535 @@ theorem typeObj_get (fk : FK) : (Rec.typeObj fk).get? = dflt fk := by
 
 theorem typeObj_not_hole (fk : FK) : (Rec.typeObj fk).isHole = false := by
   cases fk <;> rfl
+
+
+theorem all_isHole_set_false (l : List Comp) (k : Nat) (c : Comp) (hk : k < l.length) (hc : c.isHole = false) :
+    (l.set k c).all (·.isHole) = false := by
+  rw [List.all_eq_false]
+  exact ⟨c, List.mem_set hk c, by simp [hc]⟩
+
+/-- what the padded-or-kept list looks like before the assignment -/
+theorem base_shape {st : RecSt} (hinv : Rec.Inv fields st) (i : Int) (k : Nat)
+    (hk : pyIdx fields.length i = some k) :
+    let l := (if (Rec.slot (st.comps.getD []) i).isSome then st.comps.getD [] else List.replicate fields.length Comp.hole)
+    l.length = fields.length ∧ (∀ (j : Nat) (d : Int), fields[j]? = some (FK.dflt d) → l[j]? ≠ some Comp.ph) := by
+  have hs := comps_shape hinv
+  simp only
+  rw [slot_shape fields.length _ i hs, hk]
+  have hkl := pyIdx_lt _ _ _ hk
+  rcases hs with h | h
+  · simp only [h, List.getElem?_nil, Option.isSome_none, Bool.false_eq_true, if_false, List.length_replicate, true_and]
+    intro j d _ hj
+    rw [List.getElem?_replicate] at hj
+    split at hj <;> simp at hj
+  · have : k < (st.comps.getD []).length := by omega
+    simp only [List.getElem?_eq_getElem this, Option.isSome_some, if_true, h, true_and]
+    cases hc : st.comps with
+    | none => rw [hc] at this; simp at this
+    | some l => simpa using (hinv.2 l hc).2
+
+theorem inv_of_set {st : RecSt} (hinv : Rec.Inv fields st) (l : List Comp) (k : Nat) (c : Comp)
+    (hlen : l.length = fields.length) (hk : k < fields.length) (hc : c.isHole = false)
+    (hd : ∀ (j : Nat) (d : Int), fields[j]? = some (FK.dflt d) → l[j]? ≠ some Comp.ph)
+    (hcd : ∀ d : Int, fields[k]? = some (FK.dflt d) → c ≠ Comp.ph) :
+    Rec.Inv fields { st with comps := some (l.set k c) } := by
+  refine ⟨hinv.1, ?_⟩
+  intro l' hl'
+  simp only [Option.some.injEq] at hl'
+  subst hl'
+  refine ⟨.inr ⟨by simpa using hlen, all_isHole_set_false l k c (by omega) hc⟩, ?_⟩
+  intro j d hj
+  by_cases hjk : k = j
+  · subst hjk
+    rw [List.getElem?_set_self (by omega)]
+    intro h; exact hcd d hj (Option.some.inj h)
+  · rw [List.getElem?_set_ne hjk]; exact hd j d hj
+
+/-- assignment commutes with the abstraction and keeps the invariant; it fails exactly when the
+    prototype's assignment fails -/
+theorem setAt_abs {st : RecSt} (hinv : Rec.Inv fields st) (hN : fields.length ≠ 0) (i : Int) (a : Option Arg) :
+    match Rec.setAt fields st i a with
+    | some st' => DictSpec.setAt fields (Rec.absD st) i a = some (Rec.absD st') ∧ Rec.Inv fields st'
+    | none => DictSpec.setAt fields (Rec.absD st) i a = none := by
+  unfold Rec.setAt DictSpec.setAt
+  simp only [hN, ne_eq, not_false_eq_true, if_true]
+  cases hk : pyIdx fields.length i with
+  | none => simp
+  | some k =>
+    have hkl := pyIdx_lt _ _ _ hk
+    have hal := alloc_abs hinv i k hk
+    obtain ⟨hlen, hd⟩ := base_shape hinv i k hk
+    have hfk : ∃ fk, fields[k]? = some fk := ⟨_, List.getElem?_eq_getElem hkl⟩
+    obtain ⟨fk, hfk⟩ := hfk
+    simp only [hfk, setNth_eq_set]
+    cases a with
+    | none =>
+      simp only
+      refine ⟨?_, inv_of_set hinv _ k _ hlen hkl (typeObj_not_hole fk) hd ?_⟩
+      · simp only [Rec.absD, Option.map_some, List.map_set, hal, typeObj_get]
+      · intro d hdk; rw [hfk] at hdk; cases hdk; simp [Rec.typeObj]
+    | some a =>
+      cases a with
+      | py z =>
+        simp only
+        refine ⟨?_, inv_of_set hinv _ k _ hlen hkl rfl hd (by intro d _; simp)⟩
+        simp only [Rec.absD, Option.map_some, List.map_set, hal, Comp.get?]
+      | obj z =>
+        simp only
+        refine ⟨?_, inv_of_set hinv _ k _ hlen hkl rfl hd (by intro d _; simp)⟩
+        simp only [Rec.absD, Option.map_some, List.map_set, hal, Comp.get?]
+      | bad => simp
+
+
+theorem set_same {α} (l : List α) (k : Nat) (x : α) (h : l[k]? = some x) : l.set k x = l := by
+  induction l generalizing k with
+  | nil => rfl
+  | cons a l ih =>
+    cases k with
+    | zero => simp at h; simp [h]
+    | succ k => simp at h; simp [ih k h]
+
+/-- reading a component commutes with the abstraction and keeps the invariant -/
+theorem getAt_abs {st : RecSt} (hinv : Rec.Inv fields st) (hN : fields.length ≠ 0) (i : Int) (inst : Bool) :
+    (Rec.getAt fields st i inst).2 = (DictSpec.getAt fields (Rec.absD st) i inst).2 ∧
+    Rec.absD (Rec.getAt fields st i inst).1 = (DictSpec.getAt fields (Rec.absD st) i inst).1 ∧
+    Rec.Inv fields (Rec.getAt fields st i inst).1 := by
+  have hcur := cur_abs hinv i
+  have hslot := slot_getD hinv i
+  unfold Rec.getAt DictSpec.getAt
+  simp only
+  rw [← hcur]
+  cases hc : (st.comps.bind fun l => Rec.slot l i).getD Comp.hole with
+  | val z =>
+    simp only [Comp.get?]
+    cases inst <;> simp [Comp.isVal, Comp.isHole, hinv]
+  | hole =>
+    simp only [Comp.get?]
+    cases inst with
+    | false => simp [Comp.isVal, hinv]
+    | true =>
+      simp only [Bool.not_true, Bool.false_eq_true, if_false, Comp.isHole, if_true]
+      have hset := setAt_abs hinv hN i none
+      cases hk : pyIdx fields.length i with
+      | none =>
+        have : Rec.setAt fields st i none = none := by
+          unfold Rec.setAt; simp [hN, hk]
+        simp [this, hinv]
+      | some k =>
+        have hkl := pyIdx_lt _ _ _ hk
+        obtain ⟨fk, hfk⟩ : ∃ fk, fields[k]? = some fk := ⟨_, List.getElem?_eq_getElem hkl⟩
+        obtain ⟨hlen, _⟩ := base_shape hinv i k hk
+        generalize hbase : (if (Rec.slot (st.comps.getD []) i).isSome then st.comps.getD []
+          else List.replicate fields.length Comp.hole) = base at hlen
+        have hsome : Rec.setAt fields st i none =
+            some { st with comps := some (base.set k (Rec.typeObj fk)) } := by
+          unfold Rec.setAt; simp [hN, hk, hfk, setNth_eq_set, hbase]
+        rw [hsome] at hset ⊢
+        simp only [hfk]
+        obtain ⟨h1, h2⟩ := hset
+        refine ⟨?_, ?_, h2⟩
+        · -- the component returned is the one just stored
+          simp only [Option.bind_some]
+          rw [slot_shape fields.length _ i (.inr (by simpa using hlen)), hk]
+          simp only
+          rw [List.getElem?_set_self (show k < base.length by omega)]
+          cases fk <;> rfl
+        · unfold DictSpec.setAt at h1
+          simp only [hk, hfk, Option.some.injEq] at h1
+          exact h1.symm
+  | ph =>
+    simp only [Comp.get?]
+    cases inst with
+    | false => simp [Comp.isVal, hinv]
+    | true =>
+      simp only [Bool.not_true, Bool.false_eq_true, if_false, Comp.isHole]
+      -- the slot exists and holds a placeholder: its field is not a DEFAULT one
+      rw [hslot] at hc
+      cases hk : pyIdx fields.length i with
+      | none => simp [hk] at hc
+      | some k =>
+        simp only [hk] at hc
+        have hkl := pyIdx_lt _ _ _ hk
+        obtain ⟨fk, hfk⟩ : ∃ fk, fields[k]? = some fk := ⟨_, List.getElem?_eq_getElem hkl⟩
+        cases hcs : st.comps with
+        | none => simp [hcs] at hc
+        | some l =>
+          rw [hcs] at hc
+          simp only [Option.getD_some] at hc
+          have hlk : l[k]? = some Comp.ph := by
+            cases hx : l[k]? with
+            | none => simp [hx] at hc
+            | some x => simp [hx] at hc; rw [hc]
+          have hnd : dflt fk = none := by
+            cases fk with
+            | dflt d => exact absurd hlk ((hinv.2 l hcs).2 k d hfk)
+            | req => rfl
+            | opt => rfl
+          simp only [hfk, hnd]
+          refine ⟨by first | rfl | trivial, ?_, hinv⟩
+          have hne : l ≠ [] := by intro h0; subst h0; simp at hlk
+          simp only [Rec.absD, hcs, Option.map_some, alloc, Option.getD_some, List.isEmpty_iff, List.map_eq_nil_iff,
+            hne, if_false, Option.some.injEq]
+          rw [set_same]
+          simp [hlk, Comp.get?]
+
+
+theorem getMany_abs {st : RecSt} (hinv : Rec.Inv fields st) (hN : fields.length ≠ 0) (ks : List Nat) :
+    (Rec.getMany fields st ks).2 = (DictSpec.getMany fields (Rec.absD st) ks).2 ∧
+    Rec.absD (Rec.getMany fields st ks).1 = (DictSpec.getMany fields (Rec.absD st) ks).1 ∧
+    Rec.Inv fields (Rec.getMany fields st ks).1 := by
+  induction ks generalizing st with
+  | nil => exact ⟨rfl, rfl, hinv⟩
+  | cons k ks ih =>
+    obtain ⟨h1, h2, h3⟩ := getAt_abs hinv hN (k : Int) true
+    unfold Rec.getMany DictSpec.getMany
+    generalize hr : Rec.getAt fields st (k : Int) true = r at h1 h2 h3
+    generalize hq : DictSpec.getAt fields (Rec.absD st) (k : Int) true = q at h1 h2
+    obtain ⟨st1, o1⟩ := r
+    obtain ⟨s1, o2⟩ := q
+    simp only at h1 h2 h3
+    subst h1 h2
+    cases o1 with
+    | comp c =>
+      simp only
+      obtain ⟨i1, i2, i3⟩ := ih h3
+      generalize hr2 : Rec.getMany fields st1 ks = r2 at i1 i2 i3
+      generalize hq2 : DictSpec.getMany fields (Rec.absD st1) ks = q2 at i1 i2
+      obtain ⟨st2, o3⟩ := r2
+      obtain ⟨s2, o4⟩ := q2
+      simp only at i1 i2 i3
+      subst i1 i2
+      cases o3 <;> exact ⟨rfl, rfl, i3⟩
+    | unit | nat _ | bool _ | comps _ | names _ | items _ | bytes _ | lookupErr | libErr | valueErr =>
+      exact ⟨rfl, rfl, h3⟩
+
+theorem isValue_abs {st : RecSt} (hN : fields.length ≠ 0) :
+    Rec.isValue fields st = DictSpec.isValue fields (Rec.absD st) := by
+  unfold Rec.isValue DictSpec.isValue Rec.absD
+  cases st.comps with
+  | none => rfl
+  | some l =>
+    simp only [hN, ne_eq, not_false_eq_true, if_true, Option.map_some, reqSet]
+    congr 1
+    funext k
+    cases fields[k]? with
+    | none => rfl
+    | some fk =>
+      cases fk with
+      | req =>
+        simp only [List.getElem?_map]
+        cases l[k]? with
+        | none => rfl
+        | some c => cases c <;> rfl
+      | opt => rfl
+      | dflt d => rfl
+
+theorem pyIdx_nat (n k : Nat) (h : k < n) : pyIdx n (k : Int) = some k := by
+  unfold pyIdx; simp [h]
+
+theorem encTouch_value {st : RecSt} (hinv : Rec.Inv fields st) (eager : Bool) (ks : List Nat)
+    (hks : ∀ k ∈ ks, k < fields.length)
+    (hv : ∀ k ∈ ks, fields[k]? = some FK.req →
+      ((st.comps.bind (fun l => Rec.slot l (k : Int))).getD Comp.hole).isVal = true) :
+    Rec.encTouch fields eager st ks = st := by
+  induction ks with
+  | nil => rfl
+  | cons k ks ih =>
+    have ih' := ih (fun k' h' => hks k' (List.mem_cons_of_mem _ h')) (fun k' h' => hv k' (List.mem_cons_of_mem _ h'))
+    unfold Rec.encTouch
+    cases hf : fields[k]? with
+    | none => simpa using ih'
+    | some fk =>
+      cases fk with
+      | req => simp only [hv k List.mem_cons_self hf, if_true]; exact ih'
+      | opt => simpa using ih'
+      | dflt d => simpa using ih'
+
+theorem eqItems_bool (cs l : List Comp) (b : Bool) (h : Rec.eqItems cs l = .bool b) :
+    (cs.map Comp.get? == l.map Comp.get?) = b := by
+  induction cs generalizing l with
+  | nil =>
+    cases l with
+    | nil => simp [Rec.eqItems] at h; simp [← h]
+    | cons c l => simp [Rec.eqItems] at h; simp [← h]
+  | cons o os ih =>
+    cases l with
+    | nil => simp [Rec.eqItems] at h; simp [← h]
+    | cons c l =>
+      cases o with
+      | hole =>
+        cases c with
+        | hole =>
+          simp only [Rec.eqItems] at h
+          have := ih l h
+          simpa [Comp.get?] using this
+        | ph => simp [Rec.eqItems] at h
+        | val z => simp [Rec.eqItems] at h
+      | ph => cases c <;> simp [Rec.eqItems] at h
+      | val v =>
+        cases c with
+        | hole => simp [Rec.eqItems] at h
+        | ph => simp [Rec.eqItems] at h
+        | val z =>
+          simp only [Rec.eqItems] at h
+          by_cases hvz : v = z
+          · subst hvz
+            simp only [if_true] at h
+            have := ih l h
+            simpa [Comp.get?] using this
+          · simp only [hvz, if_false, Out.bool.injEq] at h
+            subst h
+            simp [Comp.get?, hvz]
+
+theorem eqItems_shape (cs l : List Comp) :
+    (∃ b, Rec.eqItems cs l = .bool b) ∨ Rec.eqItems cs l = .libErr := by
+  induction cs generalizing l with
+  | nil => cases l <;> exact .inl ⟨_, rfl⟩
+  | cons o os ih =>
+    cases l with
+    | nil => cases o <;> exact .inl ⟨_, rfl⟩
+    | cons c l =>
+      cases o with
+      | hole =>
+        cases c with
+        | hole => simpa [Rec.eqItems] using ih l
+        | ph => exact .inr rfl
+        | val z => exact .inr rfl
+      | ph => cases c <;> exact .inr rfl
+      | val v =>
+        cases c with
+        | hole => exact .inr rfl
+        | ph => exact .inr rfl
+        | val z =>
+          simp only [Rec.eqItems]
+          split
+          · exact ih l
+          · exact .inl ⟨_, rfl⟩
+
+theorem filter_read (p : Comp → Bool) (hp : ∀ c : Comp, p (readComp c.get?) = p c)
+    (hq : ∀ c : Comp, p c = true → readComp c.get? = c) (k : Nat) (l : List Comp) :
+    (enumFrom k l).filter (fun kv => p kv.2) =
+      (enumFrom k (l.map (readComp ∘ Comp.get?))).filter (fun kv => p kv.2) := by
+  induction l generalizing k with
+  | nil => rfl
+  | cons c l ih =>
+    simp only [enumFrom, List.map_cons, List.filter_cons, Function.comp, hp]
+    rw [ih (k + 1)]
+    by_cases h : p c = true
+    · simp only [h, if_true, hq c h]
+    · simp [h]
+
+theorem pretty_filter (k : Nat) (l : List Comp) :
+    (enumFrom k l).filter (fun kv => kv.2.isVal) =
+      (enumFrom k (l.map (readComp ∘ Comp.get?))).filter (fun kv => kv.2.isVal) :=
+  filter_read Comp.isVal (by intro c; cases c <;> rfl) (by intro c h; cases c <;> first | rfl | cases h) k l
+
+theorem setOut_abs {st : RecSt} (hinv : Rec.Inv fields st) (hN : fields.length ≠ 0) (i : Option Int)
+    (a : Option Arg) (err : Out) :
+    (Rec.setOut fields st i a err).2 = (setOut fields (Rec.absD st) i a err).2 ∧
+    Rec.absD (Rec.setOut fields st i a err).1 = (setOut fields (Rec.absD st) i a err).1 ∧
+    Rec.Inv fields (Rec.setOut fields st i a err).1 := by
+  cases i with
+  | none => exact ⟨rfl, rfl, hinv⟩
+  | some i =>
+    have h := setAt_abs hinv hN i a
+    simp only [setOut, Rec.setOut]
+    cases hs : Rec.setAt fields st i a with
+    | none => rw [hs] at h; simp only at h; rw [h]; exact ⟨rfl, rfl, hinv⟩
+    | some st' => rw [hs] at h; simp only at h; rw [h.1]; exact ⟨rfl, rfl, h.2⟩
+
+theorem posOfName_decl (hN : fields.length ≠ 0) (st : RecSt) (k : Nat) :
+    Rec.posOfName fields st k = DictSpec.posOfName fields k := by
+  simp [Rec.posOfName, DictSpec.posOfName, Rec.nNames, hN]
+
+theorem posOfType_decl (k : Nat) : Rec.posOfType fields k = DictSpec.posOfName fields k := rfl
+
+/-- **one step** of a SEQUENCE/SET object with declared fields against the dict prototype -/
+theorem step_abs {st : RecSt} (hinv : Rec.Inv fields st) (hN : fields.length ≠ 0) (op : RecOp)
+    (hal : Rec.Allowed fields st op = true) :
+    (Rec.step fields st op).2 = (DictSpec.step fields (Rec.absD st) op).2 ∧
+    Rec.absD (Rec.step fields st op).1 = (DictSpec.step fields (Rec.absD st) op).1 ∧
+    Rec.Inv fields (Rec.step fields st op).1 := by
+  cases op with
+  | setItemPos i a => exact setOut_abs hinv hN (some i) (some a) .lookupErr
+  | setPos i a => exact setOut_abs hinv hN (some i) (some a) .libErr
+  | setNone i => exact setOut_abs hinv hN (some i) none .libErr
+  | setItemName k a =>
+    simp only [Rec.step, DictSpec.step, ← posOfName_decl hN st k]
+    exact setOut_abs hinv hN _ (some a) .lookupErr
+  | setName k a =>
+    simp only [Rec.step, DictSpec.step, ← posOfName_decl hN st k]
+    exact setOut_abs hinv hN _ (some a) .libErr
+  | setType k a =>
+    simp only [Rec.step, DictSpec.step, ← posOfType_decl (fields := fields) k]
+    exact setOut_abs hinv hN _ (some a) .libErr
+  | clear =>
+    refine ⟨rfl, rfl, rfl, ?_⟩
+    intro l hl
+    simp only [Rec.step, Option.some.injEq] at hl
+    subst hl
+    exact ⟨.inl rfl, by intro k d _; simp⟩
+  | reset =>
+    refine ⟨rfl, rfl, rfl, ?_⟩
+    intro l hl
+    simp [Rec.step] at hl
+  | clone flag =>
+    cases flag with
+    | false =>
+      refine ⟨rfl, ?_, rfl, ?_⟩
+      · simp [Rec.step, DictSpec.step, hN, Rec.absD]
+      · intro l hl
+        simp only [Rec.step, hN, ne_eq, not_false_eq_true, if_true, Bool.not_false, Option.some.injEq] at hl
+        subst hl
+        exact ⟨.inl rfl, by intro k d _; simp⟩
+    | true =>
+      cases hc : st.comps with
+      | none =>
+        refine ⟨by simp [Rec.step, DictSpec.step, hc], by simp [Rec.step, DictSpec.step, hc, Rec.absD], ?_⟩
+        simp only [Rec.step, hc, Bool.not_true, Bool.false_eq_true, if_false]
+        exact ⟨rfl, by intro l hl; simp at hl⟩
+      | some l =>
+        have hl := hinv.2 l hc
+        have hkeep : (if l.all (·.isHole) then [] else l) = l := by
+          rcases hl.1 with h | h
+          · subst h; simp
+          · simp [h.2]
+        refine ⟨by simp [Rec.step, DictSpec.step, hc, hN], ?_, ?_⟩
+        · simp only [Rec.step, DictSpec.step, hc, hN, Bool.not_true, Bool.false_eq_true, if_false, ne_eq,
+            not_false_eq_true, if_true, hkeep, Rec.absD, Option.map_some]
+        · simp only [Rec.step, hc, hN, Bool.not_true, Bool.false_eq_true, if_false, ne_eq,
+            not_false_eq_true, if_true, hkeep]
+          refine ⟨rfl, ?_⟩
+          intro l' hl'
+          simp only [Option.some.injEq] at hl'
+          subst hl'
+          exact hl
+  | len =>
+    cases hc : st.comps with
+    | none => exact ⟨by simp [Rec.step, DictSpec.step, hc, Rec.absD], by simp [Rec.step, DictSpec.step, hc, Rec.absD], by simpa [Rec.step, hc] using hinv⟩
+    | some l => exact ⟨by simp [Rec.step, DictSpec.step, hc, Rec.absD], by simp [Rec.step, DictSpec.step, hc, Rec.absD], by simpa [Rec.step, hc] using hinv⟩
+  | keys => exact ⟨by simp [Rec.step, DictSpec.step, Rec.nNames, hN], rfl, hinv⟩
+  | contains k => exact ⟨by simp [Rec.step, DictSpec.step, Rec.nNames, hN], rfl, hinv⟩
+  | getItemPos i =>
+    obtain ⟨h1, h2, h3⟩ := getAt_abs hinv hN i true
+    exact ⟨by simp [Rec.step, DictSpec.step, h1], by simpa [Rec.step, DictSpec.step] using h2, by simpa [Rec.step] using h3⟩
+  | getPos i inst =>
+    exact getAt_abs hinv hN i inst
+  | getItemName k =>
+    simp only [Rec.step, DictSpec.step, posOfName_decl hN]
+    cases h : DictSpec.posOfName fields k with
+    | none => exact ⟨rfl, rfl, hinv⟩
+    | some i =>
+      obtain ⟨h1, h2, h3⟩ := getAt_abs hinv hN i true
+      exact ⟨by simp [h1], h2, h3⟩
+  | getName k inst =>
+    simp only [Rec.step, DictSpec.step, posOfName_decl hN]
+    cases h : DictSpec.posOfName fields k with
+    | none => exact ⟨rfl, rfl, hinv⟩
+    | some i => exact getAt_abs hinv hN i inst
+  | getType k inst =>
+    simp only [Rec.step, DictSpec.step, posOfType_decl]
+    cases h : DictSpec.posOfName fields k with
+    | none => exact ⟨rfl, rfl, hinv⟩
+    | some i => exact getAt_abs hinv hN i inst
+  | values =>
+    obtain ⟨h1, h2, h3⟩ := getMany_abs hinv hN (List.range fields.length)
+    simp only [Rec.step, DictSpec.step, Rec.nNames, hN, ne_eq, not_false_eq_true, if_true]
+    generalize Rec.getMany fields st (List.range fields.length) = r at h1 h2 h3
+    generalize DictSpec.getMany fields (Rec.absD st) (List.range fields.length) = q at h1 h2
+    obtain ⟨st1, o1⟩ := r
+    obtain ⟨s1, o2⟩ := q
+    simp only at h1 h2 h3
+    subst h1 h2
+    cases o1 <;> exact ⟨rfl, rfl, h3⟩
+  | items =>
+    obtain ⟨h1, h2, h3⟩ := getMany_abs hinv hN (List.range fields.length)
+    simp only [Rec.step, DictSpec.step, Rec.nNames, hN, ne_eq, not_false_eq_true, if_true]
+    generalize Rec.getMany fields st (List.range fields.length) = r at h1 h2 h3
+    generalize DictSpec.getMany fields (Rec.absD st) (List.range fields.length) = q at h1 h2
+    obtain ⟨st1, o1⟩ := r
+    obtain ⟨s1, o2⟩ := q
+    simp only at h1 h2 h3
+    subst h1 h2
+    cases o1 <;> exact ⟨rfl, rfl, h3⟩
+  | pretty =>
+    cases hc : st.comps with
+    | none => exact ⟨by simp [Rec.step, DictSpec.step, hc, Rec.absD], by simp [Rec.step, DictSpec.step, hc, Rec.absD], by simpa [Rec.step, hc] using hinv⟩
+    | some l =>
+      refine ⟨?_, by simp [Rec.step, DictSpec.step, hc, Rec.absD], by simpa [Rec.step, hc] using hinv⟩
+      simp only [Rec.step, DictSpec.step, hc, Rec.absD, Option.map_some, List.map_map]
+      congr 1
+      exact pretty_filter 0 l
+  | eqTo cs =>
+    cases hc : st.comps with
+    | none => exact ⟨by simp [Rec.step, DictSpec.step, hc, Rec.absD], by simp [Rec.step, DictSpec.step, hc, Rec.absD], by simpa [Rec.step, hc] using hinv⟩
+    | some l =>
+      refine ⟨?_, by simp [Rec.step, DictSpec.step, hc, Rec.absD], by simpa [Rec.step, hc] using hinv⟩
+      simp only [Rec.Allowed, hc, Option.isNone_some, Bool.false_or, Rec.step, bne_iff_ne, ne_eq] at hal
+      simp only [Rec.step, DictSpec.step, hc, Rec.absD, Option.map_some]
+      by_cases hlen : cs.length ≠ l.length
+      · rw [if_pos hlen]
+        simp only [Out.bool.injEq]
+        symm
+        rw [beq_eq_false_iff_ne]
+        intro h
+        have := congrArg List.length h
+        simp at this
+        exact hlen this
+      · rw [if_neg hlen] at hal ⊢
+        cases he : Rec.eqItems cs l with
+        | bool b => rw [eqItems_bool cs l b he]
+        | libErr => exact absurd he hal
+        | unit | nat _ | comp _ | comps _ | names _ | items _ | bytes _ | lookupErr | valueErr =>
+          rcases eqItems_shape cs l with ⟨b, hb⟩ | hb <;> rw [hb] at he <;> cases he
+  | encode eager =>
+    simp only [Rec.Allowed] at hal
+    have hv2 := hal
+    rw [isValue_abs hN] at hv2
+    have hsame : Rec.encTouch fields eager st (List.range fields.length) = st := by
+      apply encTouch_value hinv eager _ (by intro k hk; simpa using hk)
+      intro k hk hreq
+      have hkl : k < fields.length := by simpa using hk
+      rw [slot_getD hinv, pyIdx_nat _ _ hkl]
+      unfold Rec.isValue at hal
+      cases hc : st.comps with
+      | none => simp [hc] at hal
+      | some l =>
+        simp only [hc, hN, ne_eq, not_false_eq_true, if_true, List.all_eq_true, List.mem_range] at hal
+        have := hal k hkl
+        simp only [hreq] at this
+        simp only [Option.getD_some]
+        cases hlk : l[k]? with
+        | none => simp [hlk] at this
+        | some c => simpa [hlk] using this
+    simp only [Rec.step, DictSpec.step, hN, ne_eq, not_false_eq_true, if_true, hsame]
+    unfold DictSpec.isValue at hv2
+    cases hs : Rec.absD st with
+    | none => simp [hs] at hv2
+    | some l =>
+      simp only [hs] at hv2
+      simp only [hv2, if_true]
+      refine ⟨by first | rfl | trivial, ?_, hinv⟩
+      first | exact hs | trivial | rfl
+
+/-- **SEQUENCE / SET with declared fields refines the dict prototype** along any history of
+    allowed operations -/
+theorem run_abs {st : RecSt} (hinv : Rec.Inv fields st) (hN : fields.length ≠ 0) (ops : List RecOp)
+    (hal : ∀ (pre : List RecOp) (op : RecOp) (post : List RecOp), ops = pre ++ op :: post →
+      Rec.Allowed fields (Rec.run fields st pre).1 op = true) :
+    (Rec.run fields st ops).2 = (DictSpec.run fields (Rec.absD st) ops).2 ∧
+    Rec.absD (Rec.run fields st ops).1 = (DictSpec.run fields (Rec.absD st) ops).1 ∧
+    Rec.Inv fields (Rec.run fields st ops).1 := by
+  induction ops generalizing st with
+  | nil => exact ⟨rfl, rfl, hinv⟩
+  | cons op ops ih =>
+    obtain ⟨h1, h2, h3⟩ := step_abs hinv hN op (hal [] op ops rfl)
+    have ih' := ih h3 (by
+      intro pre op' post he
+      have := hal (op :: pre) op' post (by simp [he])
+      simpa [Rec.run] using this)
+    simp only [Rec.run, DictSpec.run]
+    rw [h1, ← h2]
+    exact ⟨by rw [ih'.1], ih'.2.1, ih'.2.2⟩
 
 end Asn1.Container
